@@ -83,14 +83,14 @@ def _walk(root):
 
 
 _SRC = '''
-@ob(budget=150, tbudget=900, bound='root({what}) with 8 child nodes (3 elements, 2 text, 2 comments, 2 PIs) and one grandchild; tags t0..t3 and PI targets p1,p2 over {alpha}',
+@ob(budget=150, tbudget=900, bound='root({what}) with 8 child nodes (3 elements, 2 text, 2 comments, 2 PIs) and one grandchild; tags t0..t3 and PI targets p1,p2 over {alpha} (quick tier: t3 and p2 fixed)',
     funcs=[N + ':path', N + ':get_child_position', 'elementpath/xpath30/_xpath30_functions.py:evaluate__path', 'elementpath/etree.py:etree_iter_paths'])
 def paths_{name}(t0: str, t1: str, t2: str, t3: str, p1: str, p2: str) -> bool:
     """
-    pre: all(len(t) == 1 and 'a' <= t <= '{top}' for t in (t0, t1, t2, t3, p1, p2))
+    pre: all(len(t) == 1 and 'a' <= t <= '{top}' for t in {prevars})
     post: _
     """
-    r = _mk(_c(t0), _c(t1), _c(t2), _c(t3), _c(p1), _c(p2), {doc})
+    r = _mk(_c(t0), _c(t1), _c(t2), {t3e}, _c(p1), {p2e}, {doc})
     root = build_node_tree(ET.ElementTree(r) if {doc} else r{frag})
     nodes = [n for n in _walk(root) if not isinstance(n, DocumentNode)]
     paths = [n.path for n in nodes]
@@ -116,11 +116,12 @@ def paths_{name}(t0: str, t1: str, t2: str, t3: str, p1: str, p2: str) -> bool:
     return True
 '''
 import os
-_TOP = 'b' if os.environ.get('VERIF_TIER', 'quick') == 'quick' else 'c'
-_ALPHA = '{a,b}' if _TOP == 'b' else '{a,b,c}'
-define(_SRC.format(name='document_root', doc=True, frag='', what='document', top=_TOP, alpha=_ALPHA), globals())
-define(_SRC.format(name='element_root', doc=False, frag='', what='element, no document node', top=_TOP, alpha=_ALPHA), globals())
-define(_SRC.format(name='fragment_root', doc=False, frag=', fragment=True', what='element, fragment=True', top=_TOP, alpha=_ALPHA), globals())
+_TOP = 'c'
+_QUICK = os.environ.get('VERIF_TIER', 'quick') == 'quick'
+_ALPHA = '{a,b,c}'
+define(_SRC.format(name='document_root', doc=True, frag='', what='document', top=_TOP, alpha=_ALPHA, t3e="'b'" if _QUICK else '_c(t3)', p2e="'a'" if _QUICK else '_c(p2)', prevars='(t0, t1, t2, p1)' if _QUICK else '(t0, t1, t2, t3, p1, p2)'), globals())
+define(_SRC.format(name='element_root', doc=False, frag='', what='element, no document node', top=_TOP, alpha=_ALPHA, t3e="'b'" if _QUICK else '_c(t3)', p2e="'a'" if _QUICK else '_c(p2)', prevars='(t0, t1, t2, p1)' if _QUICK else '(t0, t1, t2, t3, p1, p2)'), globals())
+define(_SRC.format(name='fragment_root', doc=False, frag=', fragment=True', what='element, fragment=True', top=_TOP, alpha=_ALPHA, t3e="'b'" if _QUICK else '_c(t3)', p2e="'a'" if _QUICK else '_c(p2)', prevars='(t0, t1, t2, p1)' if _QUICK else '(t0, t1, t2, t3, p1, p2)'), globals())
 
 
 @ob(budget=200, bound='element tags over {a,b,c}: etree_iter_paths yields node.path (in extended form) for every element',
